@@ -193,7 +193,7 @@ def table(rng, size="small", nmodels=None, family=None):
             labels = "ABC"[:k]
             copies = {}
             for i in sub:
-                copies[i] = [(labels[j], occs[j], (atoms[i][3] if j == 0 else B.cell() if rng.random() < 0.7 else
+                copies[i] = [(labels[j], occs[j], (atoms[i][3] if j == 0 or rng.random() < 0.15 else B.cell() if rng.random() < 0.7 else
                               tuple(atoms[i][3][q] + rng.choice([-300, 150, 250, 700]) for q in range(3)))) for j in range(k)]
             if order == "interleaved":
                 for i, a in enumerate(atoms):
@@ -218,7 +218,12 @@ def table(rng, size="small", nmodels=None, family=None):
             for j, a in enumerate(atoms):
                 recs.append((a[0], None, o1 if j == i else a[2], a[3]))
             pos = rng.randint(i + 1, len(recs))
-            recs.insert(pos, (atoms[i][0], None, o2, B.cell()))
+            if rng.random() < 0.3:
+                # the repeated record sits on exactly the same coordinates (superposed copies that differ in occupancy only)
+                tags.add("repeat-same-coordinates")
+                recs.insert(pos, (atoms[i][0], None, o2, atoms[i][3]))
+            else:
+                recs.insert(pos, (atoms[i][0], None, o2, B.cell()))
         else:
             for a in atoms:
                 recs.append((a[0], None, a[2], a[3]))
@@ -512,6 +517,23 @@ def corpus_files():
         if f.endswith((".pdb", ".cif")) and os.path.getsize(os.path.join(d, f)) > 0:
             out.append(os.path.join(d, f))
     return out
+
+
+def superposed(rng, k):
+    """two copies of one set of k atoms lying on top of each other (0.1 A apart) as two chains, the copy of lower
+    occupancy listed first: the clash rule removes a whole half of the table, the survivors are the high indices"""
+    names = NAMES_BACKBONE + NAMES_BASE
+    recs = []
+    lo, hi = rng.choice([("0.40", "0.60"), ("0.30", "0.70"), ("0.45", "0.55")])
+    first_low = rng.random() < 0.7
+    for ci, (chain, occ, dx) in enumerate((("A", lo if first_low else hi, 0), ("B", hi if first_low else lo, 100))):
+        for t in range(k):
+            num = 1 + t // len(names)
+            recs.append(dict(model=1, chain=chain, lchain=chain, num=num, lnum=num, icode=None, resname="G", name=names[t % len(names)],
+                             alt=None, occ=occ, x=dec3(1500 * t + dx), y=dec3(-7000 * ci * 0), z="0.000", het=False, entity="1",
+                             nm_icode="?", nm_alt=".", nm_occ="?"))
+    meta = dict(nmodels=1, models=[1], tags=["superposed-copies", "superposed:%d" % k], pdb_ok=True)
+    return recs, meta
 
 
 def handmade():
